@@ -182,6 +182,30 @@ theorem gas_mean_pressure_doc (b : BranchRow ℝ) (nf nt : NodeRow ℝ) (Z : ℝ
   rw [if_neg hne]
   ring
 
+/-! ### branch density (`properties/properties_toolbox.py:get_branch_real_density`, generated) -/
+
+/-- gases: mean of the real-gas densities `ρ_N T_N p/(T p_N K(p,T))` at the end where the gas enters (that node's absolute
+    pressure and temperature) and at the end where it leaves (that node's absolute pressure, the branch outlet temperature) -/
+theorem real_density_gas_doc (b : BranchRow ℝ) (nf nt : NodeRow ℝ) (Rho : ℝ → ℝ) (Z : ℝ → ℝ → ℝ) :
+    (realDensityGas b nf nt Rho Z).rho =
+      (Rho 273.15 * 273.15 * (if b.FROM_NODE_T_SWITCHED ≠ 0 then nt.PINIT + nt.PAMB else nf.PINIT + nf.PAMB) /
+          ((if b.FROM_NODE_T_SWITCHED ≠ 0 then nt.TINIT else nf.TINIT) * 1.01325 *
+            Z (if b.FROM_NODE_T_SWITCHED ≠ 0 then nt.PINIT + nt.PAMB else nf.PINIT + nf.PAMB)
+              (if b.FROM_NODE_T_SWITCHED ≠ 0 then nt.TINIT else nf.TINIT)) +
+        Rho 273.15 * 273.15 * (if b.FROM_NODE_T_SWITCHED ≠ 0 then nf.PINIT + nf.PAMB else nt.PINIT + nt.PAMB) /
+          (b.TOUTINIT * 1.01325 *
+            Z (if b.FROM_NODE_T_SWITCHED ≠ 0 then nf.PINIT + nf.PAMB else nt.PINIT + nt.PAMB) b.TOUTINIT)) / 2 := by
+  simp only [realDensityGas, Constants.NORMAL_PRESSURE, Constants.NORMAL_TEMPERATURE]
+  kunfold
+  by_cases hs : b.FROM_NODE_T_SWITCHED = 0 <;> simp [hs]
+
+/-- liquids: mean of the fluid's density at the inlet temperature (in flow direction) and at the branch outlet temperature -/
+theorem real_density_liquid_doc (b : BranchRow ℝ) (nf nt : NodeRow ℝ) (Rho : ℝ → ℝ) :
+    (realDensityLiquid b nf nt Rho).rho =
+      (Rho (if b.FROM_NODE_T_SWITCHED ≠ 0 then nt.TINIT else nf.TINIT) + Rho b.TOUTINIT) / 2 := by
+  simp only [realDensityLiquid]
+  kunfold
+
 /-- non-vacuity of the hypotheses of `incomp_matches_doc` / `comp_matches_doc` -/
 example : ∃ (rho A D : ℝ), 0 < rho ∧ 0 < A ∧ D ≠ 0 := ⟨998, 0.00785, 0.1, by norm_num, by norm_num, by norm_num⟩
 
